@@ -77,14 +77,17 @@ class PatternMatcher:
             "reason", deny_item.get("message", "File not allowed in this location")
         )
 
-    def match_allow_patterns(self, path_str: str, allow_patterns: list[str]) -> bool:
+    def match_allow_patterns(
+        self, path_str: str, allow_patterns: list[dict[str, str] | str]
+    ) -> bool:
         """Check if path matches any allow patterns.
 
         Args:
             path_str: File path to check
-            allow_patterns: List of regex patterns
+            allow_patterns: List of regex patterns (plain strings or mappings with 'pattern')
 
         Returns:
             True if path matches any pattern
         """
-        return any(self._get_compiled(pattern).search(path_str) for pattern in allow_patterns)
+        patterns = (self._extract_pattern_and_reason(item)[0] for item in allow_patterns)
+        return any(self._get_compiled(pattern).search(path_str) for pattern in patterns)
